@@ -66,12 +66,13 @@ class SinkH(MethodHarness):
     def make(self):
         from transactron.lib.stream import StreamSink
         s = StreamSink(self.cfg["width"])
-        return s, [("read", "t", s.read), ("peek", "t", s.peek), ("peek2", "t", s.peek)], \
+        # two callers of read (one transferred payload must be consumed by exactly one of them), two callers of peek
+        return s, [("read", "t", s.read), ("read2", "t", s.read), ("peek", "t", s.peek), ("peek2", "t", s.peek)], \
             [("i.valid", s.i.valid), ("i.payload", s.i.payload)], [("i.ready", s.i.ready)]
 
     def alphabet(self, ref):
         if not hasattr(self, "_alpha"):
-            self._alpha = self.product({"read": opts(0), "peek": opts(0), "peek2": opts(0)},
+            self._alpha = self.product({"read": opts(0), "read2": opts(0), "peek": opts(0), "peek2": opts(0)},
                                        {"i.valid": [0, 1], "i.payload": list(range(1 << self.cfg["width"]))})
         return self._alpha
 
@@ -80,19 +81,31 @@ class SinkH(MethodHarness):
         valid, payload = self.xin(inp, "i.valid"), self.xin(inp, "i.payload")
         iready = self.xobs(obs, "i.ready")
         v = []
-        for name in ("read", "peek", "peek2"):
+        for name in ("peek", "peek2"):
             if c[name].done != (c[name].en & valid):
                 v.append(f"{name}.ready: done={c[name].done} en={c[name].en} i.valid={valid}")
+        readers = [c["read"], c["read2"]]
+        nread = sum(r.done for r in readers)
+        if nread > 1:
+            v.append("read.consumed_twice: two callers of read both received the one transferred payload")
+        for k, r in enumerate(readers):
+            if r.done and not (r.en and valid):
+                v.append(f"read.ready: caller {k} done={r.done} en={r.en} i.valid={valid}")
+        if valid and any(r.en for r in readers) and nread == 0:
+            v.append(f"read.ready: i.valid=1 and read is called, but no caller ran")
+        for name in ("read", "read2", "peek", "peek2"):
             if c[name].done and c[name].out != payload:
                 v.append(f"{name}.data: got {c[name].out}, payload is {payload}")
-        if iready != c["read"].done:
-            v.append(f"i.ready: i.ready={iready} but read {'ran' if c['read'].done else 'did not run'} "
+        if iready != (1 if nread else 0):
+            v.append(f"i.ready: i.ready={iready} but read {'ran' if nread else 'did not run'} "
                      f"(peek ran: {c['peek'].done})")
         if not v:
-            if c["peek"].done and not c["read"].done:
+            if c["peek"].done and not nread:
                 self.count("nt_peek_only")
-            if c["read"].done:
+            if nread:
                 self.count("nt_read")
+            if valid and c["read"].en and c["read2"].en:
+                self.count("nt_two_readers_compete")
         return v, ref
 
 
